@@ -6,6 +6,9 @@ def allprobs(d):
 
 
 RULES = [
+    ("C08-F3", "forced fallback grid with power poles: _fallback_grid_layout ignores the fixed positions of the pole grid "
+               "and places combinators on top of poles (overlap)",
+     lambda c, d: "overlap" in allprobs(d) and "no-solution" in allprobs(d)),
     ("C08-F2", "--power-poles small: wires to small electric poles (used as power poles and as wire relays) are planned "
                "with the 9-tile span of a medium pole, but a small pole reaches 7.5 tiles",
      lambda c, d: c["poles"] == "small" and "small-electric-pole" in allprobs(d)),
